@@ -59,6 +59,8 @@ type Obligation struct {
 	File      string
 	Known     bool
 	Axioms    []string
+	Parts     int
+	FailedPart string
 }
 
 type BState struct {
@@ -367,12 +369,21 @@ func (g *Gen) def(v ssa.Value, term string) {
 	g.declare(n, sortOf(v.Type()))
 	g.vals[v] = n
 	g.assert(fmt.Sprintf("(= %s %s)", n, term))
+	g.intHint(v, n)
+}
+
+// intHint marks an int-typed value as an instantiation candidate for existential witnesses.
+func (g *Gen) intHint(v ssa.Value, n string) {
+	if b, ok := v.Type().Underlying().(*types.Basic); ok && b.Kind() == types.Int {
+		g.assert("(itrig " + n + ")")
+	}
 }
 
 func (g *Gen) havocVal(v ssa.Value) string {
 	n := g.valName(v)
 	g.declare(n, sortOf(v.Type()))
 	g.vals[v] = n
+	g.intHint(v, n)
 	return n
 }
 
